@@ -791,6 +791,36 @@ func (f *STFS) Rename(oldname, newname string) error {
 		return os.ErrInvalid
 	}
 
+	// The index resolves names relative to the root (`/d/f`, `d/f` and `./d/f` are the same entry), so identity and ancestry have to be decided on the entries that the names resolve to, not on their spelling
+	if root, err := f.metadata.Metadata.GetRootPath(context.Background()); err != nil || root == source.Name {
+		return os.ErrInvalid
+	}
+
+	if source.Linkname == "" {
+		for ancestor := newname; ; ancestor = filepath.Dir(ancestor) {
+			if hdr, err := inventory.Stat(
+				f.metadata,
+
+				ancestor,
+				false,
+
+				f.onHeader,
+			); err == nil && hdr.Name == source.Name {
+				// Renaming an existing entry to itself is a no-op
+				if ancestor == newname {
+					return nil
+				}
+
+				// Prevent moving a directory into itself
+				return os.ErrInvalid
+			}
+
+			if filepath.Dir(ancestor) == ancestor {
+				break
+			}
+		}
+	}
+
 	if parent, err := inventory.Stat(
 		f.metadata,
 
